@@ -114,6 +114,17 @@ def corpus():
     C.append(S('N13', 'struct', [F('f00', 'u8', 0), F('f01', 'Option<Opaque>', 1, codec='custom_nil_opt'), F('f02', 'u8', 2)], doc='Option field whose codec defines nil differently from None'))
     C.append(S('N14', 'struct', [F('f00', 'u8', 0), F('f01', 'Option<Opaque>', 1, codec='custom_nil_opt')], enc='map', doc='same, map'))
     C.append(E('N15', [Var('V0', 0, 'named', [F('f00', 'u8', 0), F('f01', 'Option<Opaque>', 1, codec='custom_nil_opt')], enc='map')], doc='same, enum variant'))
+    # --- every spelling of a nil-aware codec (attribute order, split attributes, module form) -----------------------------------
+    for k, cd in enumerate(('custom_nil_enc_first', 'custom_nil_dec_first', 'custom_nil_interleaved', 'custom_nil_module')):
+        C.append(S('K%d0' % k, 'struct', [F('f00', 'u8', 0), F('f01', 'Opaque', 1, codec=cd)], enc='map', doc='codec spelling %s, map' % cd))
+        C.append(S('K%d1' % k, 'struct', [F('f00', 'u8', 0), F('f01', 'Opaque', 1, codec=cd), F('f02', 'Option<u8>', 2)], doc='codec spelling %s, array' % cd))
+    # --- tuple variants / tuple structs whose declaration order is not the index order, nothing skipped ---------------------------
+    C.append(E('E15', [Var('V0', 0, 'tuple', [F('_0', 'u8', 2), F('_1', 'String', 0), F('_2', 'Option<u16>', 1)]),
+                       Var('V1', 1, 'tuple', [F('_0', 'bool', 1), F('_1', 'u32', 0)], enc='map')], doc='permuted tuple variants'))
+    C.append(E('E16', [Var('V0', 0, 'named', [F('f00', 'u8', 2), F('f01', 'String', 0), F('f02', 'Option<u16>', 1)], enc='map')], enc='map', doc='permuted named variant, map'))
+    # --- 24 fields, none spelled Option, one nil through an alias: the map header still depends on the value -----------------------
+    C.append(S('M10', 'struct', [F('f%02d' % i, 'OptAlias' if i == 7 else 'u8', i, nilable=(i == 7) or None) for i in range(24)], enc='map', doc='24 fields, the only nil-able one is an alias'))
+    C.append(S('M11', 'struct', [F('f%02d' % i, 'T' if i == 23 else 'u8', i) for i in range(24)], enc='map', generics=['T'], doc='24 fields, the only nil-able one is a type parameter'))
     C.append(S('N16', 'struct', [F('f00', 'A17', 0), F('f01', 'Option<A18>', 1), F('f02', 'E01', 2)], enc='map', doc='nested transparent / index_only types as fields'))
     return C
 
@@ -182,6 +193,17 @@ def attr_field(f, default_n=True):
     elif c == 'custom_nil_opt':
         a.append('#[cbor(encode_with = "crate::codec::enc_oo", decode_with = "crate::codec::dec_oo", cbor_len = "crate::codec::len_oo", '
                  'is_nil = "crate::codec::is_nil_oo", nil = "crate::codec::nil_oo")]')
+    elif c == 'custom_nil_enc_first':
+        a.append('#[cbor(encode_with = "crate::codec::enc_opaque", is_nil = "crate::codec::is_nil_opaque")] '
+                 '#[cbor(decode_with = "crate::codec::dec_opaque", nil = "crate::codec::nil_opaque")] #[cbor(cbor_len = "crate::codec::len_opaque")]')
+    elif c == 'custom_nil_dec_first':
+        a.append('#[cbor(decode_with = "crate::codec::dec_opaque", nil = "crate::codec::nil_opaque")] '
+                 '#[cbor(encode_with = "crate::codec::enc_opaque", is_nil = "crate::codec::is_nil_opaque", cbor_len = "crate::codec::len_opaque")]')
+    elif c == 'custom_nil_interleaved':
+        a.append('#[cbor(encode_with = "crate::codec::enc_opaque", is_nil = "crate::codec::is_nil_opaque", decode_with = "crate::codec::dec_opaque", '
+                 'nil = "crate::codec::nil_opaque", cbor_len = "crate::codec::len_opaque")]')
+    elif c == 'custom_nil_module':
+        a.append('#[cbor(with = "crate::codec::opq", has_nil)]')
     elif c == 'custom_nil':
         a.append('#[cbor(encode_with = "crate::codec::enc_opaque", decode_with = "crate::codec::dec_opaque", cbor_len = "crate::codec::len_opaque", '
                  'is_nil = "crate::codec::is_nil_opaque", nil = "crate::codec::nil_opaque")]')
@@ -288,6 +310,22 @@ pub mod codec {
     #[inline(never)]
     pub fn nil_opaque() -> Option<Opaque> {
         Some(Opaque(0))
+    }
+    /// the same codec as a module (`with = "crate::codec::opq", has_nil`)
+    pub mod opq {
+        use super::super::Opaque;
+        use minicbor::{Decoder, Encoder};
+        use minicbor::encode::{Error, Write};
+        #[inline(never)]
+        pub fn encode<C, W: Write>(v: &Opaque, e: &mut Encoder<W>, _: &mut C) -> Result<(), Error<W::Error>> { e.u32(v.0)?.ok() }
+        #[inline(never)]
+        pub fn decode<'b, C>(d: &mut Decoder<'b>, _: &mut C) -> Result<Opaque, minicbor::decode::Error> { d.u32().map(Opaque) }
+        #[inline(never)]
+        pub fn cbor_len<C>(v: &Opaque, ctx: &mut C) -> usize { use minicbor::CborLen; v.0.cbor_len(ctx) }
+        #[inline(never)]
+        pub fn is_nil(v: &Opaque) -> bool { v.0 == 0 }
+        #[inline(never)]
+        pub fn nil() -> Option<Opaque> { Some(Opaque(0)) }
     }
     // a codec for Option<Opaque> whose notion of nil (Some(Opaque(0))) is not `None`
     #[inline(never)]
